@@ -1,5 +1,7 @@
 package ristretto
 
+import "time"
+
 // Symbolic variant of the harness API: the bodies are supplied by the gosym executor.
 // (Generated from /verif/harness/tmpl/zz_vf_api.go.tmpl — edit the template.)
 
@@ -42,6 +44,8 @@ func vfNote(name string, v uint64)
 func vfAddr(b []byte) uint64
 func vfSameArray(a, b []byte) bool
 func vfOff(b []byte) uint64
+func vfTime(name string) time.Time
+func vfTimeOrZero(name string) time.Time
 func vfPreempts() int
 func vfThreadsBlocked() int
 func vfThreadsLive() int
